@@ -197,8 +197,10 @@ fn check_step(k: Kind, l: Val, d: Val, got: Val, m: &Model, step: usize, ch: usi
     let int_lsb = if k.is_int() { 1.0 } else { 0.0 };
     // two units of the Float's subnormal spacing (the envelope of a float format decays into the subnormal range)
     let tiny = if p == 24 { 2.0 * 2f64.powi(-149) } else { 2.0 * 2f64.powi(-1074) };
-    let w = 2.0 * ulp_f * scale + int_lsb + tiny;
     let diff = la - da;
+    // integer formats: previous - detected is an exact integer subtraction; only its conversion to the Float, the
+    // multiplication and the truncation back round, so the allowance scales with |previous - detected|, not with the level
+    let w = if k.is_int() { 4.0 * ulp_f * diff.abs() + int_lsb } else { 2.0 * ulp_f * scale + tiny };
     let (e1, e2) = (da + g_lo * diff, da + g_hi * diff);
     let (lo, hi) = (e1.min(e2) - w, e1.max(e2) + w);
     if !(ga >= lo && ga <= hi) {
@@ -209,7 +211,14 @@ fn check_step(k: Kind, l: Val, d: Val, got: Val, m: &Model, step: usize, ch: usi
     }
     // between the previous envelope and the detected value
     let fits = k.is_int() && k.bits() <= p;
-    let wb = if fits { 0.0 } else { tiny + 2.0 * ulp_f * scale + if k.is_int() { 2f64.powi(k.bits() as i32 - 1 - p as i32) } else { 0.0 } };
+    // overshoot: for integer formats only when |previous - detected| itself is not exactly representable in the Float
+    let wb = if fits {
+        0.0
+    } else if k.is_int() {
+        if diff.abs() < 2f64.powi(p as i32) { 0.0 } else { ulp_f * diff.abs() }
+    } else {
+        tiny + 2.0 * ulp_f * scale
+    };
     if !(ga >= la.min(da) - wb && ga <= la.max(da) + wb) {
         return Err(format!("step {} channel {}: envelope {} overshoots: not between the previous envelope {} and the detected value {}", step, ch, ga, la, da));
     }
@@ -457,7 +466,7 @@ pub fn run(ctx: &mut Ctx) {
          envelope: (frame type out of f32, [f64;2], [i16;2], [I24;1], [i32;1], [u8;3], [u16;2]; peak full/positive/negative or rms window 1..=32; attack and release in {0, -0.0 (a zero: -0.0 >= 0), 1, 1e-3, 1e-30, 0.5, 10, 1e4, 1e9, +infinity, random >= 0}; \
          history of up to 400 frames with set_attack_frames / set_release_frames at random steps; direct detector or detect_envelope adaptor); non-trivial: release path taken, zero time constant, parameter change mid-run, unsigned or multi-channel format",
     );
-    ctx.assume("rectifier oracle: |amplitude| in the signed companion, max(s, equilibrium), min(s, equilibrium), exact; envelope oracle per channel: out in d + [g_lo, g_hi] (l - d) with g = exp(-1/frames) in f64 widened by 1e-5 relative (f32 powf), result widened by 2 ulp of the format's Float at scale max(|l|,|d|) and 1 LSB for integer formats; d is observed through a second instance of the same detector stage (rectifiers are checked here, RMS in C11)");
+    ctx.assume("rectifier oracle: |amplitude| in the signed companion, max(s, equilibrium), min(s, equilibrium), exact; envelope oracle per channel: out in d + [g_lo, g_hi] (l - d) with g = exp(-1/frames) in f64 widened by 1e-5 relative (f32 powf), result widened by 2 ulp of the format's Float at scale max(|l|,|d|) for float formats, and by 1 LSB + 4 ulp of |l - d| for integer formats (their l - d is an exact integer subtraction); d is observed through a second instance of the same detector stage (rectifiers are checked here, RMS in C11)");
     ctx.assume("integer inputs exclude the format minimum (the statement's premise)");
     for c in ["falling detected value (release path)", "zero time constant", "parameter change mid-run", "unsigned format", "rms detection", "detect_envelope adaptor", "time constant > 1e7 frames (gain rounds to 1.0)", "infinite time constant (the envelope holds)", "named constructors"] {
         ctx.require_class(c);
